@@ -184,6 +184,9 @@ def generate(rng, tier):
                 cases.append("C07 bufs %d %s %s" % (status, hx(body), rtok([r])))
             for units in ("lines", "chars", "BYTES"):
                 cases.append("C07 bufu %s %s %s" % (units, hx(body), rtok([r])))
+            # made partial while 200, then given another status: the range no longer applies
+            for status in (404, 500, 201):
+                cases.append("C07 bufl %d %s %s" % (status, hx(body), rtok([r])))
     # end-to-end: Range header parsed by the library's own parser, through an Application
     hdrs = ["bytes=0-0", "bytes=2-4", "bytes=-3", "bytes=5-", "bytes=0-1,4-5", "bytes=9-2", "bytes=9-2,1-1",
             "bytes=", "bytes=-", "bytes=--", "bytes=1-2-3", "lines=1-2", "bytes=1-2=3", "nothing",
@@ -210,7 +213,7 @@ def to_model(case):
     t = case.split()
     if t[1] == "json":
         return ["C07 buf %s %s" % (t[2], t[3])]
-    if t[1] in ("bufs", "bufu"):
+    if t[1] in ("bufs", "bufu", "bufl"):
         return []          # judged by the oracle only
     if t[1] == "hdrf":
         return ["C07 hdr %s %s" % (t[2], t[3])]      # the model answers for the representation, however it is delivered
@@ -344,12 +347,16 @@ def observe_full(case):
         it = get_app()(env, lambda s, h: calls.append((s, h)))
         out = b"".join(it)
         return calls, out, body, None
-    if t[1] in ("bufs", "bufu"):
+    if t[1] in ("bufs", "bufu", "bufl"):
         from poorwsgi.response import Response
         rep, ranges = unhx(t[3]), parse_rtok(t[4])
         if t[1] == "bufs":
             res = Response(rep, status_code=int(t[2]))
             res.make_partial(ranges)
+        elif t[1] == "bufl":
+            res = Response(rep)
+            res.make_partial(ranges)
+            res.status_code = int(t[2])
         else:
             res = Response(rep)
             res.make_partial(ranges, t[2])
@@ -406,12 +413,12 @@ def oracle(case):
     hd = {k.lower(): v for k, v in headers}
     want = rfc_window(L, ranges)
     bad = None
-    if t[1] in ("bufs", "bufu"):
+    if t[1] in ("bufs", "bufu", "bufl"):
         # RFC 9110 14.2: a range applies to a 200 response and to units the server supports, else it is ignored
-        want_code = int(t[2]) if t[1] == "bufs" else 200
+        want_code = int(t[2]) if t[1] in ("bufs", "bufl") else 200
         if code != want_code or out != rep or "content-range" in hd:
             bad = "the range must be ignored (%s): expected %d with the complete body" % (
-                "status %s" % t[2] if t[1] == "bufs" else "units %s" % t[2], want_code)
+                "status %s" % t[2] if t[1] in ("bufs", "bufl") else "units %s" % t[2], want_code)
         if "content-length" in hd and hd["content-length"] != str(len(out)):
             bad = bad or "Content-Length differs from bytes sent"
         if bad:
